@@ -99,7 +99,7 @@ fn calib(args: &[String]) {
             let mut labels = Vec::new();
             let Some(case) = (prop.gen_case)(&mut t, &mut labels) else { return Ok(()) };
             let (out, _) = vlib::engine::run_format(&case);
-            let v = (prop.oracle)(&case, &out);
+            let v = (prop.oracle)(&case, &out, 0);
             let mut c = counts.borrow_mut();
             c.0 += 1;
             let mut labels: Vec<String> = labels.iter().map(|s| s.to_string()).collect();
